@@ -1,5 +1,7 @@
 package graphql
 
+import "sort"
+
 type SchemaConfig struct {
 	Query        *Object
 	Mutation     *Object
@@ -110,8 +112,8 @@ func NewSchema(config SchemaConfig) (Schema, error) {
 	if schema.implementations == nil {
 		schema.implementations = map[string][]*Object{}
 	}
-	for _, ttype := range schema.typeMap {
-		if ttype, ok := ttype.(*Object); ok {
+	for _, typeName := range sortedTypeNames(schema.typeMap) {
+		if ttype, ok := schema.typeMap[typeName].(*Object); ok {
 			for _, iface := range ttype.Interfaces() {
 				impls, ok := schema.implementations[iface.Name()]
 				if impls == nil || !ok {
@@ -145,6 +147,19 @@ func NewSchema(config SchemaConfig) (Schema, error) {
 	return schema, nil
 }
 
+// sortedTypeNames returns the names of a type map in sorted order. The
+// implementation tables are built by walking the type map; walking it in name
+// order keeps the order of possible types (introspection, default type
+// resolution) independent of Go's map iteration order.
+func sortedTypeNames(typeMap TypeMap) []string {
+	names := make([]string, 0, len(typeMap))
+	for name := range typeMap {
+		names = append(names, name)
+	}
+	sort.Strings(names)
+	return names
+}
+
 //Added Check implementation of interfaces at runtime..
 //Add Implementations at Runtime..
 func (gq *Schema) AddImplementation() error {
@@ -153,8 +168,8 @@ func (gq *Schema) AddImplementation() error {
 	if gq.implementations == nil {
 		gq.implementations = map[string][]*Object{}
 	}
-	for _, ttype := range gq.typeMap {
-		if ttype, ok := ttype.(*Object); ok {
+	for _, typeName := range sortedTypeNames(gq.typeMap) {
+		if ttype, ok := gq.typeMap[typeName].(*Object); ok {
 			for _, iface := range ttype.Interfaces() {
 				impls, ok := gq.implementations[iface.Name()]
 				if impls == nil || !ok {
